@@ -296,6 +296,14 @@ Proof.
   cbn [part_bracket]. rewrite IH, !Hp, !Hg. reflexivity.
 Qed.
 
+Lemma part_bracket_v_eq (pt : R -> Cplx R) (G : R -> R) (ev : R -> sample (K:=R)) :
+  (forall t, ev t = (t, pt t, G t)) ->
+  forall ps a, part_bracket_v NumR NumTR (ev a) (map ev ps) = part_bracket NumR NumTR pt G a ps.
+Proof.
+  intros He. induction ps as [|p r IH]; intros a; [reflexivity|].
+  cbn [map part_bracket_v part_bracket]. rewrite IH, !He. reflexivity.
+Qed.
+
 (* ---------------- the elliptical arc ---------------- *)
 Section Arc.
   Variables rx ry cph sph : R.
@@ -363,5 +371,21 @@ Section Arc.
     rewrite (part_bracket_ext _ (fun t => (gx arc_curve t, gy arc_curve t)) _ arc_GR
                               arc_pt_curve arc_G_R).
     apply part_bracket_encloses; auto. apply arc_GR_deriv.
+  Qed.
+
+  Lemma arc_sample_eq t :
+    arc_sample NumR NumTR rx ry cph sph center theta delta t
+    = (t, arc_pt NumR NumTR rx ry cph sph center theta delta t,
+       arc_G NumR NumTR rx ry cph sph theta delta t).
+  Proof. reflexivity. Qed.
+  Theorem arc_sample_bracket a ps : sorted_from a ps ->
+    let ev := arc_sample NumR NumTR rx ry cph sph center theta delta in
+    let b := part_bracket_v NumR NumTR (ev a) (map ev ps) in
+    fst b <= curve_len arc_curve a (last ps a) <= snd b.
+  Proof.
+    intros Hs ev b. unfold b.
+    rewrite (part_bracket_v_eq (arc_pt NumR NumTR rx ry cph sph center theta delta)
+                               (arc_G NumR NumTR rx ry cph sph theta delta) ev arc_sample_eq).
+    apply arc_part_bracket. exact Hs.
   Qed.
 End Arc.
